@@ -177,6 +177,27 @@ func genConcurrent(r *rand.Rand, quick bool) *plan.Plan {
 		}
 		clients = append(clients, ops)
 	}
+	// one history in three has the node's memory limiter as one more concurrent party: it hands the open
+	// segments' metadata a budget below what they hold (mem_pressure = the production entry point
+	// RebalanceUnrotatedMetadata) while ingests, flushes, rotations and searches run. The choices come from a
+	// generator of their own (derived from what has been generated so far), so that the histories of earlier
+	// versions of this family stay what they were.
+	{
+		sum := 0
+		for _, n := range total {
+			sum += n
+		}
+		r2 := rand.New(rand.NewPCG(uint64(len(clients))*1_000_003+uint64(sum), 0x11d))
+		if r2.IntN(3) == 0 {
+			var ops []plan.Op
+			for b := 0; b < 2+r2.IntN(5); b++ {
+				ops = append(ops, plan.Op{Kind: "advance", DurMs: int64([]int{0, 1, 200, 2400, 4990, 5000, 5010, 7000}[r2.IntN(8)])},
+					plan.Op{Kind: "mem_pressure", Args: map[string]any{"unrotated_permille": float64([]int{0, 100, 500, 900}[r2.IntN(4)])}})
+			}
+			clients = append(clients, ops)
+			p.Params["memory_limiter_client"] = true
+		}
+	}
 	inc := plan.Incarnation{Boot: "full", SchedSeed: r.Uint64()>>11 | 1}
 	inc.Ops = append(inc.Ops, plan.Op{Kind: "par", Par: clients})
 	// quiescence: timers drained, final flush, final reads
